@@ -1,9 +1,10 @@
 (* C14 — Whitespace, comments and IndentByParentheses never change meaning.
    Statements about `lex`, the model of parser.lex (compared with VerifLex on every run). Proofs: LexProofs.v.
-   PARTIAL: layout invariance of the lexer is proved (white-space separators, comments anywhere between tokens);
-   that IndentByParentheses preserves the tokens is NOT proved - the model of the formatter is compared
-   with Go's on every string, and Go's tokens before/after formatting (once and twice) are compared directly. *)
-Require Import Base Opcode Tables Ops Tree Opt Flat Run Directives Lexer Print LexProofs.
+   Layout invariance of the lexer is proved (white-space separators, comments anywhere between tokens), and so is the
+   formatter: for every source the lexer accepts, IndentByParentheses returns a text with the same tokens and comments
+   (FormatProofs.v). PARTIAL: sources the lexer rejects (the formatted text should be rejected too) are covered by the
+   correspondence only. *)
+Require Import Base Opcode Tables Ops Tree Opt Flat Run Directives Lexer Parser Print LexProofs FormatProofs.
 Open Scope Z_scope.
 
 (* the lexer inverts every rendering of a token list: any (possibly empty) run of Unicode white space between
@@ -45,9 +46,52 @@ Proof.
   - rewrite IH by exact Ht. reflexivity.
 Qed.
 
-(* the formatter: full statement, not proved (kept visible) *)
-Definition C14_indent_statement : Prop :=
-  forall s, option_map drop_comments (lex_tab false (Print.indent_by_parens s)) = option_map drop_comments (lex_tab false s).
+(* ---------- IndentByParentheses (proofs: FormatProofs.v) ---------- *)
+
+(* for EVERY source text the lexer accepts (prefix notation): the formatted text lexes to exactly the same tokens and
+   comments - string literals with spaces, parentheses, semicolons, line breaks included - except that a comment
+   ending the text loses its trailing white space (the formatter trims its result) *)
+Theorem C14_indent_tokens : forall s toks, lex_tab false s = Some toks ->
+  lex_tab false (indent_by_parens s) = Some (trim_last toks).
+Proof. exact (indent_lexable is_letter_tab is_number_tab eq_refl eq_refl). Qed.
+
+(* ... so what the parser sees, hence the parsed tree (hence, by C01/C15's theorems, the compiled program and its
+   value), is the same; and the comments before the first token, where directives are read, are the same *)
+Theorem C14_indent_meaning : forall s toks, lex_tab false s = Some toks ->
+  option_map drop_comments (lex_tab false (indent_by_parens s)) = option_map drop_comments (lex_tab false s).
+Proof. exact (indent_meaning_lexable is_letter_tab is_number_tab eq_refl eq_refl). Qed.
+Theorem C14_indent_parse : forall c s toks, lex_tab false s = Some toks ->
+  Parser.parse_source c false (indent_by_parens s) = Parser.parse_source c false s.
+Proof.
+  intros c s toks H. unfold Parser.parse_source. rewrite (C14_indent_tokens s toks H), H. rewrite trim_last_drop. reflexivity.
+Qed.
+Theorem C14_indent_directives : forall s toks, lex_tab false s = Some toks ->
+  existsb (fun t => negb (is_comment t)) toks = true ->
+  option_map leading_comments (lex_tab false (indent_by_parens s)) = Some (leading_comments toks).
+Proof. intros s toks H Hn. rewrite (C14_indent_tokens s toks H). cbn [option_map]. rewrite trim_last_leading by exact Hn. reflexivity. Qed.
+
+(* formatting twice gives the tokens of formatting once *)
+Theorem C14_indent_twice : forall s toks, lex_tab false s = Some toks ->
+  option_map drop_comments (lex_tab false (indent_by_parens (indent_by_parens s))) = Some (drop_comments toks).
+Proof. exact (indent_twice is_letter_tab is_number_tab eq_refl eq_refl). Qed.
+
+(* the same for every rendering of every well-formed token list, in either notation, for any letter/number
+   classification under which the double quote is neither *)
+Theorem C14_indent_layouts : forall is_letter is_number, is_letter 34%N = false -> is_number 34%N = false ->
+  forall infix lead items, all_space lead -> wf_items is_letter is_number infix items ->
+  lex is_letter is_number infix (indent_by_parens (lead ++ render items)) = Some (trim_last (map fst items)).
+Proof. exact indent_tokens_wf. Qed.
+
+(* and the lexer accepts exactly the renderings (prefix notation): every accepted source is white space followed by a
+   well-formed rendering of its own tokens - so the theorems over renderings above speak about every accepted source *)
+Theorem C14_lex_complete : forall is_letter is_number fuel s toks, lex_loop is_letter is_number fuel false s = Some toks ->
+  exists lead items, s = lead ++ render items /\ all_space lead /\ wf_items is_letter is_number false items /\ map fst items = toks.
+Proof. exact lex_complete. Qed.
+
+(* NOT proved (kept visible): that the formatter maps a text the lexer REJECTS to a text the lexer rejects. The
+   formatter's model is compared with Go's on every string of every run, rejected ones included. *)
+Definition C14_indent_rejected_statement : Prop :=
+  forall s, lex_tab false s = None -> lex_tab false (Print.indent_by_parens s) = None.
 
 (* non-vacuity: the same tokens under three layouts, with a string containing every delimiter *)
 Definition toks : list tok := [KLParen; KIdent (ss "="); KStr (ss "a (b); c
@@ -65,6 +109,16 @@ Example C14_ex :
  x.y)")) = Some toks.
 Proof. vm_compute. repeat split. Qed.
 
+(* the formatter on a source with a comment, a string holding every delimiter, nested parentheses *)
+Definition src : str := ss "  (and ;; why (
+  (= ""a (b); c"" x.y)   ( in n (1 2   3) ) ) ; end   ".
+Example C14_ex_indent :
+  exists toks, lex_tab false src = Some toks /\ length toks = 19%nat /\
+    lex_tab false (indent_by_parens src) = Some (trim_last toks) /\ indent_by_parens src <> src.
+Proof. eexists. split; [vm_compute; reflexivity|split; [reflexivity|split; [vm_compute; reflexivity|vm_compute; discriminate]]]. Qed.
+
 Print Assumptions C14_lex_render.
+Print Assumptions C14_indent_tokens.
+Print Assumptions C14_indent_parse.
 Print Assumptions C14_layout_invariance.
 Print Assumptions C14_comments_invariance.
